@@ -1,6 +1,7 @@
 package checks
 
 import (
+	"bytes"
 	"crypto/sha256"
 	"encoding/hex"
 	"encoding/json"
@@ -150,6 +151,54 @@ func c17Body(c *ev.Ctx) {
 		if byCfg[k] != nil && byCfg[k][hex.EncodeToString(s[:])] == 0 {
 			c.Violation("cli-extract-differs", "extract-circuit writes a different model than ExtractLean returns in-process", nil)
 		}
+		// regeneration histories: the output path already holds a model (a longer one from larger
+		// dimensions, the same one, a shorter one, unrelated bytes); the file must end up being the
+		// extraction at (D,B) and nothing else
+		type prior struct {
+			name string
+			prep func(path string) error
+		}
+		cliAt := func(path string, d, b int) error {
+			r, err := runCLI(nil, 10*time.Minute, "extract-circuit", "--output", path, "--tree-depth", fmt.Sprint(d), "--batch-size", fmt.Sprint(b))
+			if err != nil {
+				return err
+			}
+			if r.Exit != 0 {
+				return fmt.Errorf("extract-circuit (%d,%d) exits %d: %s", d, b, r.Exit, tailStr(r.Stderr))
+			}
+			return nil
+		}
+		priors := []prior{
+			{fmt.Sprintf("a model extracted at (%d,%d)", D, B+1), func(p string) error { return cliAt(p, D, B+1) }},
+			{fmt.Sprintf("a model extracted at (%d,%d)", D, B), func(p string) error { return cliAt(p, D, B) }},
+			{"a model extracted at (2,1)", func(p string) error { return cliAt(p, 2, 1) }},
+			{"the committed model followed by stale text", func(p string) error {
+				return os.WriteFile(p, append(append([]byte{}, committedRaw...), []byte(strings.Repeat("-- stale tail\n", 2000))...), 0o644)
+			}},
+		}
+		regen := 0
+		for i, pr := range priors {
+			if c.Expired() {
+				c.Cap("regeneration histories: budget")
+				break
+			}
+			path := filepath.Join(scratchDir(), fmt.Sprintf("regen-%d.lean", i))
+			if err := pr.prep(path); err != nil {
+				c.Violation("cli-extract|"+pr.name, err.Error(), nil)
+				continue
+			}
+			if err := cliAt(path, D, B); err != nil {
+				c.Violation("cli-extract|over "+pr.name, err.Error(), nil)
+				continue
+			}
+			got, _ := os.ReadFile(path)
+			if !bytes.Equal(got, data) {
+				c.Violation("cli-regenerate|"+pr.name, fmt.Sprintf("extract-circuit at (%d,%d) over a file that held %s leaves %d bytes, a fresh extraction has %d: the model file is not what extraction produces", D, B, pr.name, len(got), len(data)), nil)
+			}
+			os.Remove(path)
+			regen++
+		}
+		c.Set("cli_regeneration_histories", regen)
 	}
 	// (i) model == committed file, per definition
 	extractedRaw, err := os.ReadFile(first)
